@@ -85,7 +85,7 @@ void run_C05(vh::Ctx& c) {
     c.desc(what);
     c.count("grid." + gname); c.count(vh::fmt("dim.%u", d)); c.count(vh::fmt("history_ops.%d", nops));
     c.nontrivial(vh::fnv_str(what));
-    if (!(std::fabs(tau - (tsum - ti)) <= 1e-9 * (1 + std::fabs(tsum) + std::fabs(ti)))) c.violation("C05:harness:tau-bookkeeping", what + vh::fmt(" tau=%.17g model %.17g", tau, tsum - ti));
+    if (!(std::fabs(tau - (tsum - ti)) <= 1e-9 * (1 + std::fabs(tsum) + std::fabs(ti)))) c.violation("C05:clock:t-minus-t_initial-differs-from-the-history", what + vh::fmt(" Get_t()-Get_t_initial()=%.17g, the history adds up to %.17g", tau, tsum - ti));
     // the stored states as they are now (whatever the history did to them)
     std::vector<std::vector<double>> st((size_t)nx * nr);
     for (unsigned ix = 0; ix < nx; ix++) for (unsigned ir = 0; ir < nr; ir++) st[(size_t)ix * nr + ir] = p->rho(ix, ir).GetComponents();
